@@ -639,7 +639,19 @@ def ill_queries():
                 items.append(("ill-query:%s:bound" % fid, tpl.replace("[<=10]", "[%s]" % b).format(**good)))
             elif "[<=10; " in tpl:
                 items.append(("ill-query:%s:bound" % fid, re.sub(r"\[<=10; \d+\]", "[%s]" % b, tpl).format(**good)))
+    # member selection on every kind of operand: operators keep the type of a process / record / channel operand without naming one
+    for op in MEMBER_OPERANDS:
+        for m in ("L1", "k", "f", "nosuch"):
+            items.append(("ill-query:member-of:%s" % op.split()[0], "E<> ( %s ) . %s" % (op, m)))
+            items.append(("ill-query:member-of-compared:%s" % op.split()[0], "A[] ( %s ) . %s > 0" % (op, m)))
+            items.append(("ill-query:member-of-member:%s" % op.split()[0], "E<> ( %s ) . %s . %s" % (op, m, m)))
     return ctx, items
+
+
+MEMBER_OPERANDS = ["P", "! P", "- P", "+ P", "P '", "P ++", "++ P", "P + 1", "1 + P", "P && P", "P ? P : P", "p ? P : P", "abs ( P )", "fmod ( P , 1 )", "P [ 0 ]",
+                   "P ( 0 )", "P = P", "forall ( i : int[0,1] ) P", "sum ( i : int[0,1] ) P", "P . L1", "P . k", "rcd", "! rcd", "- rcd", "rcd '", "rcd ++", "p ? rcd : rcd",
+                   "arr", "arr [ 0 ]", "ch", "! ch", "x", "x '", "- x", "fq", "fq ( 1 )", "deadlock", "1", "true", "1.5", "\"s\"", "nosuch", "P . nosuch", "a", "- a",
+                   "not P", "P imply P", "P <? P", "P , P"]
 
 
 def ill_query_shard(arg):
